@@ -764,7 +764,8 @@ def value_tokens(v, r=None):
     if k == "ref":
         return [("#%d" % v[1], "val")]
     if k == "null":
-        return [("$", "val")]
+        # ["null"] is written `$`; ["null", "empty"] leaves the position empty (`,,` / `(,` / `,)`), which stepcode documents as "unset" too
+        return [("" if len(v) > 1 and v[1] == "empty" else "$", "val")]
     if k == "derived":
         return [("*", "val")]
     if k == "list":
